@@ -639,7 +639,16 @@ loop:
 		return
 	}
 	if waitErr != nil || r.res == nil || !r.res.Completed {
-		r.crash = crashSignature(string(logB), waitErr)
+		// The race detector makes an otherwise successful child exit with
+		// status 66 when it printed reports (halt_on_error=0); the reports
+		// themselves are parsed below, so that is not a crash.
+		raceExit := false
+		if ee, ok := waitErr.(*exec.ExitError); ok && v.Race && ee.ExitCode() == 66 && r.res != nil && r.res.Completed {
+			raceExit = true
+		}
+		if !raceExit {
+			r.crash = crashSignature(string(logB), waitErr)
+		}
 	}
 	if v.Race {
 		r.raceSigs = parseRaceLogs(base + ".race")
